@@ -174,6 +174,15 @@ func c18ScenarioRoot(use string, dotu bool, part, parts int, rootStyle string) S
 				names = append(names, pre+sib)
 			}
 		}
+		// names that go through the inward symbolic links of d/dd and come back with '..':
+		// spelled, they stay below d; resolved by the host, they climb out
+		if use == "rename" || use == "create" || use == "mkdir" || use == "symlink" || use == "link" {
+			for _, l := range []string{"up/..", "up/../..", "toroot/..", "toroot/../..", "./up/../.."} {
+				for _, leaf := range []string{"x", "escaped", "canary", "export-sibdir/new", "canarydir"} {
+					names = append(names, l+"/"+leaf)
+				}
+			}
+		}
 		seen := map[string]bool{}
 		fail := func(sig, msg string) {
 			if !seen[sig] && len(res.Findings) < 8 {
@@ -365,7 +374,7 @@ func c18ScenarioRoot(use string, dotu bool, part, parts int, rootStyle string) S
 					}
 				case "rename":
 					attach("")
-					for _, target := range [][]string{{"x"}, {"d", "y"}, {"d", "dd"}} {
+					for _, target := range [][]string{{"x"}, {"d", "y"}, {"d", "dd"}, {"d", "dd", "z"}} {
 						if r := rpc(twalk(0, 0, 15, target...)); r == nil || r.Type != wire.Rwalk || len(r.Wqid) != len(target) {
 							continue
 						}
